@@ -373,6 +373,55 @@ def f_i64_extend_i32_u : CFunc := { params := [.i32], body := [
     .assign (.reg 0 .i32) (.arg 0 .i32),
     .assign (.reg 0 .i64) (.cast .i64 (.cast .u32 (.reg 0 .i32))),
     .ret (.reg 0 .i64)] }
+/-- `i32.const 0`  ⇒  R0.i32 = 0; return R0.i32; -/
+def f_i32_const_0 : CFunc := { params := [], body := [
+    .assign (.reg 0 .i32) (.lit 0),
+    .ret (.reg 0 .i32)] }
+/-- `i32.const 1`  ⇒  R0.i32 = 1; return R0.i32; -/
+def f_i32_const_1 : CFunc := { params := [], body := [
+    .assign (.reg 0 .i32) (.lit 1),
+    .ret (.reg 0 .i32)] }
+/-- `i32.const -1`  ⇒  R0.i32 = -1; return R0.i32; -/
+def f_i32_const_2 : CFunc := { params := [], body := [
+    .assign (.reg 0 .i32) (.un .neg (.lit 1)),
+    .ret (.reg 0 .i32)] }
+/-- `i32.const 2147483647`  ⇒  R0.i32 = 2147483647; return R0.i32; -/
+def f_i32_const_3 : CFunc := { params := [], body := [
+    .assign (.reg 0 .i32) (.lit 2147483647),
+    .ret (.reg 0 .i32)] }
+/-- `i32.const -2147483648`  ⇒  R0.i32 = -2147483648; return R0.i32; -/
+def f_i32_const_4 : CFunc := { params := [], body := [
+    .assign (.reg 0 .i32) (.un .neg (.lit 2147483648)),
+    .ret (.reg 0 .i32)] }
+/-- `i32.const 0x7fffffff`  ⇒  R0.i32 = 2147483647; return R0.i32; -/
+def f_i32_const_5 : CFunc := { params := [], body := [
+    .assign (.reg 0 .i32) (.lit 2147483647),
+    .ret (.reg 0 .i32)] }
+/-- `i64.const 0`  ⇒  R0.i64 = 0; return R0.i64; -/
+def f_i64_const_0 : CFunc := { params := [], body := [
+    .assign (.reg 0 .i64) (.lit 0),
+    .ret (.reg 0 .i64)] }
+/-- `i64.const 1`  ⇒  R0.i64 = 1; return R0.i64; -/
+def f_i64_const_1 : CFunc := { params := [], body := [
+    .assign (.reg 0 .i64) (.lit 1),
+    .ret (.reg 0 .i64)] }
+/-- `i64.const -1`  ⇒  R0.i64 = -1; return R0.i64; -/
+def f_i64_const_2 : CFunc := { params := [], body := [
+    .assign (.reg 0 .i64) (.un .neg (.lit 1)),
+    .ret (.reg 0 .i64)] }
+/-- `i64.const 9223372036854775807`  ⇒  R0.i64 = 9223372036854775807; return R0.i64; -/
+def f_i64_const_3 : CFunc := { params := [], body := [
+    .assign (.reg 0 .i64) (.lit 9223372036854775807),
+    .ret (.reg 0 .i64)] }
+-- i64_const_4 (i64.const -9223372036854775808): UNMODELLED: integer constant 9223372036854775808 is not representable in long long (C11 6.4.4.1p6: it has no type)   C: val_t R0; R0.i64 = -9223372036854775808; return R0.i64;
+/-- `i64.const 4294967296`  ⇒  R0.i64 = 4294967296; return R0.i64; -/
+def f_i64_const_5 : CFunc := { params := [], body := [
+    .assign (.reg 0 .i64) (.lit 4294967296),
+    .ret (.reg 0 .i64)] }
+/-- `i64.const -4294967297`  ⇒  R0.i64 = -4294967297; return R0.i64; -/
+def f_i64_const_6 : CFunc := { params := [], body := [
+    .assign (.reg 0 .i64) (.un .neg (.lit 4294967297)),
+    .ret (.reg 0 .i64)] }
 /-- `i32.load offset=0`  ⇒  R0.i32 = arg0; memcpy(&R0.i32, &app_memory[R0.i32+0], 4); return R0.i32; -/
 def f_i32_load_o0 : CFunc := { params := [.i32], body := [
     .assign (.reg 0 .i32) (.arg 0 .i32),
@@ -393,10 +442,6 @@ def f_i64_load_o3 : CFunc := { params := [.i32], body := [
     .assign (.reg 0 .i32) (.arg 0 .i32),
     .loadMem (.reg 0 .i64) (.bin .add (.reg 0 .i32) (.lit 3)) 8,
     .ret (.reg 0 .i64)] }
--- f32_load_o0 (f32.load offset=0): UNMODELLED: union member .f32   C: val_t R0; R0.i32 = arg0; memcpy(&R0.f32, &app_memory[R0.i32+0], 4); return R0.f32;
--- f32_load_o3 (f32.load offset=3): UNMODELLED: union member .f32   C: val_t R0; R0.i32 = arg0; memcpy(&R0.f32, &app_memory[R0.i32+3], 4); return R0.f32;
--- f64_load_o0 (f64.load offset=0): UNMODELLED: union member .f64   C: val_t R0; R0.i32 = arg0; memcpy(&R0.f64, &app_memory[R0.i32+0], 8); return R0.f64;
--- f64_load_o3 (f64.load offset=3): UNMODELLED: union member .f64   C: val_t R0; R0.i32 = arg0; memcpy(&R0.f64, &app_memory[R0.i32+3], 8); return R0.f64;
 /-- `i32.load8_s offset=0`  ⇒  R0.i32 = arg0; memcpy(&R_u8, &app_memory[R0.i32+0], 1); R0.i32 = (int32_t)((int8_t)R_u8); return R0.i32; -/
 def f_i32_load8_s_o0 : CFunc := { params := [.i32], body := [
     .assign (.reg 0 .i32) (.arg 0 .i32),
@@ -541,10 +586,6 @@ def f_i64_store_o3 : CFunc := { params := [.i32, .i64], body := [
     .assign (.reg 1 .i64) (.arg 1 .i64),
     .storeMem (.bin .add (.reg 0 .i32) (.lit 3)) (.reg 1 .i64) 8,
     .retVoid] }
--- f32_store_o0 (f32.store offset=0): UNMODELLED: parameter type float   C: val_t R0, R1; R0.i32 = arg0; R1.f32 = arg1; memcpy(&app_memory[R0.i32+0], &R1.f32, 4); return;
--- f32_store_o3 (f32.store offset=3): UNMODELLED: parameter type float   C: val_t R0, R1; R0.i32 = arg0; R1.f32 = arg1; memcpy(&app_memory[R0.i32+3], &R1.f32, 4); return;
--- f64_store_o0 (f64.store offset=0): UNMODELLED: parameter type double   C: val_t R0, R1; R0.i32 = arg0; R1.f64 = arg1; memcpy(&app_memory[R0.i32+0], &R1.f64, 8); return;
--- f64_store_o3 (f64.store offset=3): UNMODELLED: parameter type double   C: val_t R0, R1; R0.i32 = arg0; R1.f64 = arg1; memcpy(&app_memory[R0.i32+3], &R1.f64, 8); return;
 /-- `i32.store8 offset=0`  ⇒  R0.i32 = arg0; R1.i32 = arg1; R_u8 = (uint8_t)((int8_t)(R1.i32)); memcpy(&app_memory[R0.i32+0], &R_u8, 1); return; -/
 def f_i32_store8_o0 : CFunc := { params := [.i32, .i32], body := [
     .assign (.reg 0 .i32) (.arg 0 .i32),
@@ -618,55 +659,6 @@ def f_i64_store32_o3 : CFunc := { params := [.i32, .i64], body := [
 -- memory_size (memory.size): UNMODELLED: identifier app_memory_size   C: val_t R0; R0.i32 = app_memory_size; return R0.i32;
 -- memory_fill (memory.fill): UNMODELLED: identifier memset   C: val_t R0, R1, R2; R0.i32 = arg0; R1.i32 = arg1; R2.i32 = arg2; memset(&app_memory[R0.i32], R1.i32, R2.i32); return;
 -- memory_copy (memory.copy): UNMODELLED: expected num None, got ('id', 'R2')   C: val_t R0, R1, R2; R0.i32 = arg0; R1.i32 = arg1; R2.i32 = arg2; memcpy(&app_memory[R0.i32], &app_memory[R1.i32], R2.i32); return;
-/-- `i32.const 0`  ⇒  R0.i32 = 0; return R0.i32; -/
-def f_i32_const_0 : CFunc := { params := [], body := [
-    .assign (.reg 0 .i32) (.lit 0),
-    .ret (.reg 0 .i32)] }
-/-- `i32.const 1`  ⇒  R0.i32 = 1; return R0.i32; -/
-def f_i32_const_1 : CFunc := { params := [], body := [
-    .assign (.reg 0 .i32) (.lit 1),
-    .ret (.reg 0 .i32)] }
-/-- `i32.const -1`  ⇒  R0.i32 = -1; return R0.i32; -/
-def f_i32_const_2 : CFunc := { params := [], body := [
-    .assign (.reg 0 .i32) (.un .neg (.lit 1)),
-    .ret (.reg 0 .i32)] }
-/-- `i32.const 2147483647`  ⇒  R0.i32 = 2147483647; return R0.i32; -/
-def f_i32_const_3 : CFunc := { params := [], body := [
-    .assign (.reg 0 .i32) (.lit 2147483647),
-    .ret (.reg 0 .i32)] }
-/-- `i32.const -2147483648`  ⇒  R0.i32 = -2147483648; return R0.i32; -/
-def f_i32_const_4 : CFunc := { params := [], body := [
-    .assign (.reg 0 .i32) (.un .neg (.lit 2147483648)),
-    .ret (.reg 0 .i32)] }
-/-- `i32.const 0x7fffffff`  ⇒  R0.i32 = 2147483647; return R0.i32; -/
-def f_i32_const_5 : CFunc := { params := [], body := [
-    .assign (.reg 0 .i32) (.lit 2147483647),
-    .ret (.reg 0 .i32)] }
-/-- `i64.const 0`  ⇒  R0.i64 = 0; return R0.i64; -/
-def f_i64_const_0 : CFunc := { params := [], body := [
-    .assign (.reg 0 .i64) (.lit 0),
-    .ret (.reg 0 .i64)] }
-/-- `i64.const 1`  ⇒  R0.i64 = 1; return R0.i64; -/
-def f_i64_const_1 : CFunc := { params := [], body := [
-    .assign (.reg 0 .i64) (.lit 1),
-    .ret (.reg 0 .i64)] }
-/-- `i64.const -1`  ⇒  R0.i64 = -1; return R0.i64; -/
-def f_i64_const_2 : CFunc := { params := [], body := [
-    .assign (.reg 0 .i64) (.un .neg (.lit 1)),
-    .ret (.reg 0 .i64)] }
-/-- `i64.const 9223372036854775807`  ⇒  R0.i64 = 9223372036854775807; return R0.i64; -/
-def f_i64_const_3 : CFunc := { params := [], body := [
-    .assign (.reg 0 .i64) (.lit 9223372036854775807),
-    .ret (.reg 0 .i64)] }
--- i64_const_4 (i64.const -9223372036854775808): UNMODELLED: integer constant 9223372036854775808 is not representable in long long (C11 6.4.4.1p6: it has no type)   C: val_t R0; R0.i64 = -9223372036854775808; return R0.i64;
-/-- `i64.const 4294967296`  ⇒  R0.i64 = 4294967296; return R0.i64; -/
-def f_i64_const_5 : CFunc := { params := [], body := [
-    .assign (.reg 0 .i64) (.lit 4294967296),
-    .ret (.reg 0 .i64)] }
-/-- `i64.const -4294967297`  ⇒  R0.i64 = -4294967297; return R0.i64; -/
-def f_i64_const_6 : CFunc := { params := [], body := [
-    .assign (.reg 0 .i64) (.un .neg (.lit 4294967297)),
-    .ret (.reg 0 .i64)] }
 
-def table : List (String × CFunc) := [("i32_add", f_i32_add), ("i32_sub", f_i32_sub), ("i32_mul", f_i32_mul), ("i32_div_s", f_i32_div_s), ("i32_div_u", f_i32_div_u), ("i32_rem_s", f_i32_rem_s), ("i32_rem_u", f_i32_rem_u), ("i32_and", f_i32_and), ("i32_or", f_i32_or), ("i32_xor", f_i32_xor), ("i32_shl", f_i32_shl), ("i32_shr_s", f_i32_shr_s), ("i32_shr_u", f_i32_shr_u), ("i32_rotl", f_i32_rotl), ("i32_rotr", f_i32_rotr), ("i32_eq", f_i32_eq), ("i32_ne", f_i32_ne), ("i32_lt_s", f_i32_lt_s), ("i32_lt_u", f_i32_lt_u), ("i32_gt_s", f_i32_gt_s), ("i32_gt_u", f_i32_gt_u), ("i32_le_s", f_i32_le_s), ("i32_le_u", f_i32_le_u), ("i32_ge_s", f_i32_ge_s), ("i32_ge_u", f_i32_ge_u), ("i32_eqz", f_i32_eqz), ("i32_clz", f_i32_clz), ("i32_ctz", f_i32_ctz), ("i32_popcnt", f_i32_popcnt), ("select_i32", f_select_i32), ("i64_add", f_i64_add), ("i64_sub", f_i64_sub), ("i64_mul", f_i64_mul), ("i64_div_s", f_i64_div_s), ("i64_div_u", f_i64_div_u), ("i64_rem_s", f_i64_rem_s), ("i64_rem_u", f_i64_rem_u), ("i64_and", f_i64_and), ("i64_or", f_i64_or), ("i64_xor", f_i64_xor), ("i64_shl", f_i64_shl), ("i64_shr_s", f_i64_shr_s), ("i64_shr_u", f_i64_shr_u), ("i64_rotl", f_i64_rotl), ("i64_rotr", f_i64_rotr), ("i64_eq", f_i64_eq), ("i64_ne", f_i64_ne), ("i64_lt_s", f_i64_lt_s), ("i64_lt_u", f_i64_lt_u), ("i64_gt_s", f_i64_gt_s), ("i64_gt_u", f_i64_gt_u), ("i64_le_s", f_i64_le_s), ("i64_le_u", f_i64_le_u), ("i64_ge_s", f_i64_ge_s), ("i64_ge_u", f_i64_ge_u), ("i64_eqz", f_i64_eqz), ("i64_clz", f_i64_clz), ("i64_ctz", f_i64_ctz), ("i64_popcnt", f_i64_popcnt), ("select_i64", f_select_i64), ("i32_wrap_i64", f_i32_wrap_i64), ("i64_extend_i32_s", f_i64_extend_i32_s), ("i64_extend_i32_u", f_i64_extend_i32_u), ("i32_load_o0", f_i32_load_o0), ("i32_load_o3", f_i32_load_o3), ("i64_load_o0", f_i64_load_o0), ("i64_load_o3", f_i64_load_o3), ("i32_load8_s_o0", f_i32_load8_s_o0), ("i32_load8_s_o3", f_i32_load8_s_o3), ("i32_load8_u_o0", f_i32_load8_u_o0), ("i32_load8_u_o3", f_i32_load8_u_o3), ("i32_load16_s_o0", f_i32_load16_s_o0), ("i32_load16_s_o3", f_i32_load16_s_o3), ("i32_load16_u_o0", f_i32_load16_u_o0), ("i32_load16_u_o3", f_i32_load16_u_o3), ("i64_load8_s_o0", f_i64_load8_s_o0), ("i64_load8_s_o3", f_i64_load8_s_o3), ("i64_load8_u_o0", f_i64_load8_u_o0), ("i64_load8_u_o3", f_i64_load8_u_o3), ("i64_load16_s_o0", f_i64_load16_s_o0), ("i64_load16_s_o3", f_i64_load16_s_o3), ("i64_load16_u_o0", f_i64_load16_u_o0), ("i64_load16_u_o3", f_i64_load16_u_o3), ("i64_load32_s_o0", f_i64_load32_s_o0), ("i64_load32_s_o3", f_i64_load32_s_o3), ("i64_load32_u_o0", f_i64_load32_u_o0), ("i64_load32_u_o3", f_i64_load32_u_o3), ("i32_store_o0", f_i32_store_o0), ("i32_store_o3", f_i32_store_o3), ("i64_store_o0", f_i64_store_o0), ("i64_store_o3", f_i64_store_o3), ("i32_store8_o0", f_i32_store8_o0), ("i32_store8_o3", f_i32_store8_o3), ("i32_store16_o0", f_i32_store16_o0), ("i32_store16_o3", f_i32_store16_o3), ("i64_store8_o0", f_i64_store8_o0), ("i64_store8_o3", f_i64_store8_o3), ("i64_store16_o0", f_i64_store16_o0), ("i64_store16_o3", f_i64_store16_o3), ("i64_store32_o0", f_i64_store32_o0), ("i64_store32_o3", f_i64_store32_o3), ("i32_const_0", f_i32_const_0), ("i32_const_1", f_i32_const_1), ("i32_const_2", f_i32_const_2), ("i32_const_3", f_i32_const_3), ("i32_const_4", f_i32_const_4), ("i32_const_5", f_i32_const_5), ("i64_const_0", f_i64_const_0), ("i64_const_1", f_i64_const_1), ("i64_const_2", f_i64_const_2), ("i64_const_3", f_i64_const_3), ("i64_const_5", f_i64_const_5), ("i64_const_6", f_i64_const_6)]
+def table : List (String × CFunc) := [("i32_add", f_i32_add), ("i32_sub", f_i32_sub), ("i32_mul", f_i32_mul), ("i32_div_s", f_i32_div_s), ("i32_div_u", f_i32_div_u), ("i32_rem_s", f_i32_rem_s), ("i32_rem_u", f_i32_rem_u), ("i32_and", f_i32_and), ("i32_or", f_i32_or), ("i32_xor", f_i32_xor), ("i32_shl", f_i32_shl), ("i32_shr_s", f_i32_shr_s), ("i32_shr_u", f_i32_shr_u), ("i32_rotl", f_i32_rotl), ("i32_rotr", f_i32_rotr), ("i32_eq", f_i32_eq), ("i32_ne", f_i32_ne), ("i32_lt_s", f_i32_lt_s), ("i32_lt_u", f_i32_lt_u), ("i32_gt_s", f_i32_gt_s), ("i32_gt_u", f_i32_gt_u), ("i32_le_s", f_i32_le_s), ("i32_le_u", f_i32_le_u), ("i32_ge_s", f_i32_ge_s), ("i32_ge_u", f_i32_ge_u), ("i32_eqz", f_i32_eqz), ("i32_clz", f_i32_clz), ("i32_ctz", f_i32_ctz), ("i32_popcnt", f_i32_popcnt), ("select_i32", f_select_i32), ("i64_add", f_i64_add), ("i64_sub", f_i64_sub), ("i64_mul", f_i64_mul), ("i64_div_s", f_i64_div_s), ("i64_div_u", f_i64_div_u), ("i64_rem_s", f_i64_rem_s), ("i64_rem_u", f_i64_rem_u), ("i64_and", f_i64_and), ("i64_or", f_i64_or), ("i64_xor", f_i64_xor), ("i64_shl", f_i64_shl), ("i64_shr_s", f_i64_shr_s), ("i64_shr_u", f_i64_shr_u), ("i64_rotl", f_i64_rotl), ("i64_rotr", f_i64_rotr), ("i64_eq", f_i64_eq), ("i64_ne", f_i64_ne), ("i64_lt_s", f_i64_lt_s), ("i64_lt_u", f_i64_lt_u), ("i64_gt_s", f_i64_gt_s), ("i64_gt_u", f_i64_gt_u), ("i64_le_s", f_i64_le_s), ("i64_le_u", f_i64_le_u), ("i64_ge_s", f_i64_ge_s), ("i64_ge_u", f_i64_ge_u), ("i64_eqz", f_i64_eqz), ("i64_clz", f_i64_clz), ("i64_ctz", f_i64_ctz), ("i64_popcnt", f_i64_popcnt), ("select_i64", f_select_i64), ("i32_wrap_i64", f_i32_wrap_i64), ("i64_extend_i32_s", f_i64_extend_i32_s), ("i64_extend_i32_u", f_i64_extend_i32_u), ("i32_const_0", f_i32_const_0), ("i32_const_1", f_i32_const_1), ("i32_const_2", f_i32_const_2), ("i32_const_3", f_i32_const_3), ("i32_const_4", f_i32_const_4), ("i32_const_5", f_i32_const_5), ("i64_const_0", f_i64_const_0), ("i64_const_1", f_i64_const_1), ("i64_const_2", f_i64_const_2), ("i64_const_3", f_i64_const_3), ("i64_const_5", f_i64_const_5), ("i64_const_6", f_i64_const_6), ("i32_load_o0", f_i32_load_o0), ("i32_load_o3", f_i32_load_o3), ("i64_load_o0", f_i64_load_o0), ("i64_load_o3", f_i64_load_o3), ("i32_load8_s_o0", f_i32_load8_s_o0), ("i32_load8_s_o3", f_i32_load8_s_o3), ("i32_load8_u_o0", f_i32_load8_u_o0), ("i32_load8_u_o3", f_i32_load8_u_o3), ("i32_load16_s_o0", f_i32_load16_s_o0), ("i32_load16_s_o3", f_i32_load16_s_o3), ("i32_load16_u_o0", f_i32_load16_u_o0), ("i32_load16_u_o3", f_i32_load16_u_o3), ("i64_load8_s_o0", f_i64_load8_s_o0), ("i64_load8_s_o3", f_i64_load8_s_o3), ("i64_load8_u_o0", f_i64_load8_u_o0), ("i64_load8_u_o3", f_i64_load8_u_o3), ("i64_load16_s_o0", f_i64_load16_s_o0), ("i64_load16_s_o3", f_i64_load16_s_o3), ("i64_load16_u_o0", f_i64_load16_u_o0), ("i64_load16_u_o3", f_i64_load16_u_o3), ("i64_load32_s_o0", f_i64_load32_s_o0), ("i64_load32_s_o3", f_i64_load32_s_o3), ("i64_load32_u_o0", f_i64_load32_u_o0), ("i64_load32_u_o3", f_i64_load32_u_o3), ("i32_store_o0", f_i32_store_o0), ("i32_store_o3", f_i32_store_o3), ("i64_store_o0", f_i64_store_o0), ("i64_store_o3", f_i64_store_o3), ("i32_store8_o0", f_i32_store8_o0), ("i32_store8_o3", f_i32_store8_o3), ("i32_store16_o0", f_i32_store16_o0), ("i32_store16_o3", f_i32_store16_o3), ("i64_store8_o0", f_i64_store8_o0), ("i64_store8_o3", f_i64_store8_o3), ("i64_store16_o0", f_i64_store16_o0), ("i64_store16_o3", f_i64_store16_o3), ("i64_store32_o0", f_i64_store32_o0), ("i64_store32_o3", f_i64_store32_o3)]
 end WaVerif.Gen.C03
